@@ -95,27 +95,29 @@ def main():
         print('library units compile with change:', rc == 0)
     finally:
         shutil.rmtree(tb, ignore_errors=True)
-    # my checks against /repo with the patch applied
-    rc, out = sh(['git', '-C', '/repo', 'status', '--porcelain', '--untracked-files=no'])
-    if out.strip():
-        print('refusing to apply: /repo has local modifications')
-        return 2
+    # my checks against a scratch copy of /repo's sources with the patch applied (CELMA_REPO): the same analysis as
+    # `git -C /repo apply`, without ever leaving /repo modified (other runs may be reading it at the same time)
     caught = {}
-    rc, out = sh(['git', '-C', '/repo', 'apply', patch])
+    scratch = tempfile.mkdtemp(prefix='celma-intake.')
     try:
+        shutil.copytree('/repo/src', os.path.join(scratch, 'src'))
+        rc, out = sh(['patch', '-p1', '-s', '-d', scratch, '-i', patch])
         if rc == 0:
             env = dict(os.environ)
-            env['VERIF_EVIDENCE_DIR'] = tempfile.mkdtemp(prefix='celma-ev.')
+            env['CELMA_REPO'] = scratch
+            env['VERIF_EVIDENCE_DIR'] = os.path.join(scratch, 'evidence')
+            env['VERIF_REPORT_DIR'] = os.path.join(scratch, 'reports')
             for c in checks:
                 r, o = sh([os.path.join(VERIF, 'bin', 'check'), c], env=env)
                 fails = [l.strip()[:220] for l in o.splitlines() if l.strip().startswith('FAILED ')]
                 caught[c] = {'exit': r, 'failed': fails[:6]}
                 print('check %s: exit %d %s' % (c, r, fails[:2]))
-            shutil.rmtree(env['VERIF_EVIDENCE_DIR'], ignore_errors=True)
+        else:
+            print('patch does not apply to the scratch copy: ' + out[-300:])
     finally:
-        sh(['git', '-C', '/repo', 'checkout', '--', '.'])
+        shutil.rmtree(scratch, ignore_errors=True)
     meta['checks_against_change'] = caught
-    meta['ran'].append('git -C /repo apply patch.diff; bin/check %s; git -C /repo checkout -- .' % ' '.join(checks))
+    meta['ran'].append('scratch copy of /repo/src + patch.diff; CELMA_REPO=<copy> bin/check %s' % ' '.join(checks))
     old = {}
     mp = os.path.join(dst, 'meta.json')
     if os.path.exists(mp):
